@@ -128,7 +128,7 @@ func runConfig(engine, profile string, rt route, cells []cell) {
 		runCell(o, be, c)
 	}
 	// leak clause: everything this configuration started must be gone after a settle period
-	ok := stack.Eventually(3*time.Second, func() bool { return runtime.NumGoroutine() <= baseline+3 && be.OpenConns() == 0 })
+	ok := stack.Eventually(10*time.Second, func() bool { return runtime.NumGoroutine() <= baseline+3 && be.OpenConns() == 0 })
 	if !ok {
 		violate("goroutines-or-connections-leaked", map[string]any{"engine": engine},
 			fmt.Sprintf("engine=%s profile=%s route=%s: after %d cells goroutines %d (baseline %d), backend connections still open %d", engine, profile, rt.name, len(cells), runtime.NumGoroutine(), baseline, be.OpenConns()),
@@ -167,8 +167,8 @@ func runCell(o *stack.Olla, be *stack.Backend, c cell) {
 		// live delivery: chunk i may only be sent once the client has seen chunk i-1
 		if i >= 1 && i <= c.nchunks && c.livePromised() {
 			marker := fmt.Sprintf("CHUNK%dX", i)
-			if !s.WaitFor(marker, 3*time.Second) {
-				fail("chunk-not-delivered-live", fmt.Sprintf("chunk %d was written by the backend but is not visible to the client after 3 s although the next chunk is being held back", i))
+			if !s.WaitFor(marker, 10*time.Second) {
+				fail("chunk-not-delivered-live", fmt.Sprintf("chunk %d was written by the backend but is not visible to the client after 10 s although the next chunk is being held back", i))
 				return false
 			}
 		}
@@ -182,7 +182,7 @@ func runCell(o *stack.Olla, be *stack.Backend, c cell) {
 		case "stall":
 			// jump past the read timeout; repeat a few times because olla may arm its read timer a moment
 			// after the backend has decided to stall (a timer armed after a jump needs the next one)
-			for k := 0; k < 8; k++ {
+			for k := 0; k < 45; k++ {
 				vclock.Advance(31 * time.Second)
 				select {
 				case <-release:
@@ -196,7 +196,7 @@ func runCell(o *stack.Olla, be *stack.Backend, c cell) {
 			s.Abort()
 			// does the upstream connection go away?
 			buf := make([]byte, 1)
-			q.Conn.SetReadDeadline(time.Now().Add(5 * time.Second))
+			q.Conn.SetReadDeadline(time.Now().Add(10 * time.Second))
 			_, err := q.Conn.Read(buf)
 			closed := false
 			if err != nil {
@@ -230,7 +230,7 @@ func runCell(o *stack.Olla, be *stack.Backend, c cell) {
 	}
 	switch c.event {
 	case "none", "pause":
-		ended := s.WaitEnd(8 * time.Second)
+		ended := s.WaitEnd(25 * time.Second)
 		raw := s.Raw()
 		if !ended {
 			fail("stream-does-not-end", "the client's exchange is still open 8 s after the backend finished")
@@ -249,7 +249,7 @@ func runCell(o *stack.Olla, be *stack.Backend, c cell) {
 		}
 	case "stall":
 		t0 := time.Now()
-		ended := s.WaitEnd(5 * time.Second)
+		ended := s.WaitEnd(15 * time.Second)
 		close(release)
 		release = nil
 		if !ended {
@@ -259,9 +259,9 @@ func runCell(o *stack.Olla, be *stack.Backend, c cell) {
 		select {
 		case closed := <-peerClosed:
 			if !closed {
-				fail("client-abort-not-propagated", "the client went away but the backend's connection was still open 5 s later")
+				fail("client-abort-not-propagated", "the client went away but the backend's connection was still open 10 s later")
 			}
-		case <-time.After(7 * time.Second):
+		case <-time.After(14 * time.Second):
 			fail("client-abort-not-propagated", "the backend never reached the abort point")
 		}
 	}
